@@ -29,8 +29,6 @@ assume-func github.com/iotaledger/hive.go/ds/orderedmap.OrderedMap.Clear(m)
   modifies ghost(seen)
   ensures forall k U_T :: !sel(sel(seen, m), k)
   ensures forall o Int :: o != m ==> sel(seen, o) == sel(old(seen), o)
-assume-func github.com/iotaledger/hive.go/lo.Return2(a, b) (r)
-  ensures r == b
 
 assume-func container/list.List.Len(l) (r)
   requires l != nil
